@@ -506,3 +506,82 @@ func (w *World) knownContract(r *verifutil.Rng) *KnownContract {
 	}
 	return live[r.Intn(len(live))]
 }
+
+// Burst generates 2-4 transactions of ONE sender with consecutive nonces whose validity
+// depends on each other when applied in sequence (each passes pool admission on its own,
+// because the pool validates against the head state).
+func (w *World) Burst(r *verifutil.Rng) []*Gen {
+	v := w.View()
+	st := v.AppState.State
+	vc := v.AppState.ValidatorsCache
+	from := w.pickActor(r, func(a *Actor, id state.Identity) bool {
+		return a != w.God && !(len(w.Nodes) > 0 && a == w.Nodes[0]) && st.GetBalance(a.Addr).Cmp(Dna(5)) > 0
+	})
+	if from == nil {
+		return nil
+	}
+	ep := st.Epoch()
+	nonce := w.NextNonce(from)
+	n := r.Range(2, 4)
+	var out []*Gen
+	fresh := func() common.Address {
+		var a common.Address
+		copy(a[:], r.Bytes(20))
+		return a
+	}
+	someone := func() common.Address { return w.pickActor(r, nil).Addr }
+	bal := st.GetBalance(from.Addr)
+	for i := 0; i < n; i++ {
+		var t types.TxType
+		var to *common.Address
+		var amount *big.Int
+		var payload []byte
+		kind := ""
+		addr := func(a common.Address) *common.Address { return &a }
+		switch r.Intn(14) {
+		case 0:
+			t, to, kind = types.DelegateTx, addr(someone()), "Delegate"
+		case 1:
+			t, to, kind = types.DelegateTx, addr(fresh()), "Delegate/fresh"
+		case 2:
+			t, kind = types.UndelegateTx, "Undelegate"
+		case 3:
+			t, kind = types.KillTx, "Kill"
+		case 4:
+			t, to, amount, kind = types.SendTx, addr(someone()), new(big.Int).Div(new(big.Int).Mul(bal, big.NewInt(int64(r.Range(50, 99)))), big.NewInt(100)), "Send/most"
+		case 5:
+			t, to, amount, kind = types.SendTx, addr(fresh()), new(big.Int).Div(bal, big.NewInt(int64(r.Range(2, 9)))), "Send"
+		case 6:
+			on := !vc.IsOnlineIdentity(from.Addr)
+			if r.Bool() {
+				on = !on
+			}
+			t, payload, kind = types.OnlineStatusTx, attachments.CreateOnlineStatusAttachment(on), "OnlineStatus"
+		case 7:
+			t, to, amount, kind = types.ReplenishStakeTx, addr(someone()), new(big.Int).Div(bal, big.NewInt(int64(r.Range(2, 9)))), "ReplenishStake"
+		case 8:
+			t, to, kind = types.KillDelegatorTx, addr(fresh()), "KillDelegator/fresh"
+		case 9:
+			t, to, kind = types.KillInviteeTx, addr(fresh()), "KillInvitee/fresh"
+		case 10:
+			t, to, amount, kind = types.InviteTx, addr(fresh()), Dna(1), "Invite"
+		case 11:
+			t, amount, payload, kind = types.BurnTx, new(big.Int).Div(bal, big.NewInt(int64(r.Range(3, 30)))), attachments.CreateBurnAttachment("k"), "Burn"
+		case 12:
+			t, payload, kind = types.SubmitFlipTx, attachments.CreateFlipSubmitAttachment(FakeCid(r), uint8(r.Intn(3))), "SubmitFlip"
+		case 13:
+			t, payload, kind = types.ChangeProfileTx, attachments.CreateChangeProfileAttachment(FakeCid(r)), "ChangeProfile"
+		}
+		probe := &types.Transaction{AccountNonce: nonce, Epoch: ep, Type: t, To: to, Amount: amount, Payload: payload, MaxFee: Dna(1)}
+		f := w.FeeFor(probe)
+		minFee := fee.CalculateFee(vc.NetworkSize(), fee.GetFeePerGasForNetwork(vc.NetworkSize()), probe)
+		maxFee := new(big.Int).Mul(f, big.NewInt(3))
+		if maxFee.Cmp(minFee) < 0 {
+			maxFee.Set(minFee)
+		}
+		maxFee.Add(maxFee, big.NewInt(1000))
+		out = append(out, &Gen{Tx: SignedTx(from, t, to, amount, maxFee, nil, nonce, ep, payload), Kind: "burst:" + kind})
+		nonce++
+	}
+	return out
+}
